@@ -23,8 +23,25 @@ def lea_results(cx, tag="dev-none-stable"):
     return cx._facts[key]
 
 
+_KEEP = {"self", "if", "else", "match", "matches", "as", "true", "false", "mut", "ref", "let", "in", "assertion", "failed",
+         "internal", "error", "entered", "unreachable", "code", "i64", "u32", "u64", "usize", "i32", "u8", "bool", "char", "str"}
+
+
 def norm_msg(s):
-    return " ".join((s or "").split())
+    """Whitespace-normalised assertion text with *variable* identifiers abstracted, so that renaming a local or a
+    parameter does not change the key (method names, paths, macros, fields and types are kept)."""
+    import re
+    s = " ".join((s or "").split())
+
+    def repl(m):
+        w = m.group(0)
+        start, end = m.start(), m.end()
+        before = s[start - 1] if start > 0 else ""
+        after = s[end:end + 2]
+        if w in _KEEP or after.startswith("(") or after.startswith("::") or after.startswith("!") or before in (".", ":"):
+            return w
+        return "$v"
+    return re.sub(r"\b[a-z_][a-z0-9_]*\b", repl, s)
 
 
 def apply(cx, rules, tag="dev-none-stable"):
